@@ -679,6 +679,10 @@ func (e *env) runEnc(id, tier string) {
 		var wg sync.WaitGroup
 		var pmu sync.Mutex
 		panics := 0
+		// the nonce of EVERY write, not only of the files left at the end: each writer owns its keys, so the
+		// file it reads back after its own Set is the one that Set wrote
+		root := filepath.Join(e.dir, "verif")
+		nonces := make([][]string, writers)
 		for w := 0; w < writers; w++ {
 			wg.Add(1)
 			go func(w int) {
@@ -691,17 +695,22 @@ func (e *env) runEnc(id, tier string) {
 					}
 				}()
 				for i := 0; i < per; i++ {
-					_ = conn.Set("nonce-"+strconv.Itoa(w)+"-"+strconv.Itoa(i%50), val)
+					k := "nonce-" + strconv.Itoa(w) + "-" + strconv.Itoa(i%50)
+					if conn.Set(k, val) == nil {
+						if b, err := os.ReadFile(filepath.Join(root, b64url(k))); err == nil && len(b) >= 12 {
+							nonces[w] = append(nonces[w], string(b[:12]))
+						}
+					}
 				}
 			}(w)
 		}
 		wg.Wait()
 		seen := map[string]int{}
 		dups := 0
-		for _, b := range e.readAllFiles() {
-			if len(b) >= 12 {
-				seen[string(b[:12])]++
-				if seen[string(b[:12])] == 2 {
+		for _, ns := range nonces {
+			for _, n := range ns {
+				seen[n]++
+				if seen[n] == 2 {
 					dups++
 				}
 			}
